@@ -187,3 +187,23 @@ for shape in SHAPES:
                    'cpppo.server.tnetstrings.parse_list', 'cpppo.server.tnetstrings.parse_dict', 'cpppo.server.tnetstrings.parse_payload'],
            bounds='container shape %s with every leaf chosen (solver-enumerated selector) among %r; equal value AND equal types (repr) and '
                   'whole string consumed' % (shape, LEAVES), outside='floats; deeper nesting; other leaf values')
+
+
+# floats are CONCRETE (the solver would treat them as reals): boundary values chosen by a solver-enumerated selector, incl. values that need all 17
+# significant digits, the smallest subnormal, the largest finite value, negative zero
+FLOATS = [0.0, -0.0, 1.0, 2.3, 0.1 + 0.2, 1.1 + 2.2, 123456.78901234567, 1.0 / 3, 1e22, 1e-7, 5e-324, 1.7976931348623157e308, -2.5e-5,
+          9007199254740994.0, 1e16, -1.0 / 3]
+
+
+def do_roundtrip_float(sel, nested):
+    v = FLOATS[concretize(sel, len(FLOATS))]
+    w = [v, {'k': v}] if nested else v
+    got, rest = tnetstrings.parse(tnetstrings.dump(w) + b'#')
+    g = got[1]['k'] if nested else got
+    return repr(got) == repr(w) and type(g) is float and rest == b'#'
+
+
+define(globals(), 'C20', 'roundtrip_float_selected', ['sel', ('nested', 'bool')], "return do_roundtrip_float(sel, nested)", ['0 <= sel < %d' % len(FLOATS)],
+       timeout=1800, path_timeout=60, drives=['cpppo.server.tnetstrings.dump', 'cpppo.server.tnetstrings.parse', 'cpppo.server.tnetstrings.parse_payload'],
+       bounds='CONCRETE floats %r (selector enumerated by the solver), bare and nested in a list + dict: parse(dump(v)) has the identical repr (bit-exact value, '
+              'sign of zero) and type' % (FLOATS,), outside='all other floats (floats are not symbolic in this technique); nan (not equal to itself)')
